@@ -305,7 +305,7 @@ def replay_main(mod, path):
     ctx = Ctx(mod.ID, "quick", 0)
     ok = case_body(mod, ctx, dec(r["case"]), raise_on_fail=False)
     for sig, n in ctx.known_hits.items():
-        print(f"KNOWN-FINDING: property={mod.ID} {ctx.known[sig]['what_fails']} [signature={sig}]")
+        print(f"KNOWN-FINDING: property={mod.ID} {ctx.known.get(sig, {}).get('what_fails', '(collected, not listed)')} [signature={sig}]")
     if not ok:
         print(f"VIOLATION property={mod.ID} replay={os.path.abspath(path)}")
         print(f"  signature: {ctx.violation['signature']}\n  detail: {ctx.violation['detail']}")
